@@ -386,6 +386,14 @@ def _store(t, val, env):
             raise Raised("ValueError")
         for x, v in zip(t.elts, vals):
             _store(x, v, env)
+    elif isinstance(t, ast.Attribute):
+        base = _ev(t.value, env)
+        if isinstance(base, ModelObj):
+            base.attrs[t.attr] = val
+        elif getattr(base, "mi_native", False) and hasattr(base, "mi_setattr"):
+            base.mi_setattr(t.attr, val)         # may raise Raised("AttributeError") for a read-only attribute
+        else:
+            raise AnalysisError("miniinterp: unsupported store target")
     else:
         raise AnalysisError("miniinterp: unsupported store target")
 
@@ -582,7 +590,8 @@ def _ev(e, env):
             if any(A.dotted(d_) == "staticmethod" for d_ in mnode.decorator_list):
                 return call_function(mnode, _args(e, env), extra)
             return call_method(mnode, env["__self__"], _args(e, env), extra)
-        if isinstance(e.func, ast.Attribute) and e.func.attr in ("upper", "lower", "strip", "join", "split", "startswith", "endswith"):
+        if isinstance(e.func, ast.Attribute) and e.func.attr in ("upper", "lower", "strip", "join", "split", "startswith", "endswith", "format", "count",
+                                                                  "replace", "rstrip", "lstrip", "encode", "decode"):
             base = _ev(e.func.value, env)
             if isinstance(base, (str, bytes)):
                 return getattr(base, e.func.attr)(*_args(e, env))
